@@ -24,6 +24,9 @@ func ProcessProfile(profileText string, debug bool, eventChan *chan e.Event) (*r
 func GenerateRego(profileText string, debug bool, eventChan *chan e.Event) (*generator.RegoUnit, error) {
 	// Parse profile
 	dispatchEvent(e.NewEvent(e.ProfileParsingStart), eventChan)
+	if err := verifFault("profile_parse"); err != nil {
+		return nil, err
+	}
 	parsed, err := parser.Parse(profileText)
 	dispatchEvent(e.NewEvent(e.ProfileParsingDone), eventChan)
 
@@ -33,6 +36,9 @@ func GenerateRego(profileText string, debug bool, eventChan *chan e.Event) (*gen
 
 	// Generate Rego code
 	dispatchEvent(e.NewEvent(e.RegoGenerationStart), eventChan)
+	if err := verifFault("rego_generate"); err != nil {
+		return nil, err
+	}
 	module := generator.Generate(*parsed)
 	dispatchEvent(e.NewEvent(e.RegoGenerationDone), eventChan)
 
@@ -49,6 +55,9 @@ var unsafeBuiltinsMap = map[string]struct{}{
 
 func CompileRego(regoUnit *generator.RegoUnit, eventChan *chan e.Event) (*rego.PreparedEvalQuery, error) {
 	dispatchEvent(e.NewEvent(e.RegoCompilationStart), eventChan)
+	if err := verifFault("rego_compile"); err != nil {
+		return nil, err
+	}
 	query := rego.Query("data." + regoUnit.Name + "." + regoUnit.Entrypoint)
 	module := rego.Module(regoUnit.Name+".rego", regoUnit.Code)
 	unsafeBuiltins := rego.UnsafeBuiltins(unsafeBuiltinsMap)
